@@ -22,13 +22,19 @@ class Ctl:
         self.fault = fault
         self.events = []
 
-    def step(self, kind, order, version):
+    def step(self, kind, order, version, inside=False):
         k = self.k
         self.k += 1
         if self.fault is not None and self.fault == k:
             self.events.append('fail%s%d@%d' % (kind, order, version))
+            if inside:
+                # the step starts and is interrupted part-way: after its first DDL statement went through
+                self.armed = True
+                return
             raise StepFault('injected')
         self.events.append('%s%d@%d' % (kind, order, version))
+
+    armed = False
 
 
 def recording_set(orders, version):
@@ -188,13 +194,21 @@ class SqlSetStream(Stream):
     case_type = 'mcase'
     run_fn = 'run_mig'
     rule = ('the SQL migration set (one migration) on an in-memory SQLite database driven by request histories with '
-            'faults injected into the migration step; compared: raised?, recorded version, steps; oracle: the policy '
+            'faults injected into the migration step - before its body or (every other case) after its first CREATE/DROP TABLE '
+            'statement went through; compared: raised?, recorded version, steps; oracle: the policy '
             'tables exist iff the recorded version is >= 1. non-trivial = history with a failing request')
+
+    def corpus(self):
+        # an up run interrupted after its first CREATE TABLE, repeated; then down interrupted likewise, repeated
+        return [{'orders': [1], 'version': 0, 'inside': True,
+                 'hist': [['up', None, 0], ['up', None, None], ['down', None, 0], ['down', None, None]]},
+                {'orders': [1], 'version': 0, 'inside': True,
+                 'hist': [['up', 1, 0], ['up', 1, None], ['up', None, None], ['down', 0, 0], ['down', 0, None]]}]
 
     def generate(self, rng, tier):
         n = 60 if tier == 'quick' else 400
-        for _ in range(n):
-            yield {'orders': [1], 'version': 0, 'hist': gen_history(rng, [1], 5)}
+        for k in range(n):
+            yield {'orders': [1], 'version': 0, 'hist': gen_history(rng, [1], 5), 'inside': k % 2 == 1}
 
     def emit(self, c):
         return RecordingStream().emit(c)
@@ -218,16 +232,31 @@ class SqlSetStream(Stream):
                 up0, down0 = m.up, m.down
 
                 def up(m=m, up0=up0):
-                    ctl.step('up', m.order, mset.last_applied())
-                    up0()
+                    ctl.step('up', m.order, mset.last_applied(), inside)
+                    try:
+                        up0()
+                    finally:
+                        ctl.armed = False
 
                 def down(m=m, down0=down0):
-                    ctl.step('down', m.order, mset.last_applied())
-                    down0()
+                    ctl.step('down', m.order, mset.last_applied(), inside)
+                    try:
+                        down0()
+                    finally:
+                        ctl.armed = False
                 m.up, m.down = up, down
                 out.append(m)
             return out
         mset.migrations = wrapped
+        inside = bool(c.get('inside'))
+        if inside:
+            from sqlalchemy import event
+
+            @event.listens_for(eng, 'after_cursor_execute')
+            def _interrupt(conn, cursor, statement, parameters, context, executemany):
+                if ctl.armed and statement.lstrip().upper().startswith(('CREATE TABLE', 'DROP TABLE')):
+                    ctl.armed = False
+                    raise StepFault('injected after the first DDL statement of the step')
         mig = Migrator(mset)
         out, schema = [], []
         for kind, number, fault in c['hist']:
@@ -238,7 +267,12 @@ class SqlSetStream(Stream):
             except StepFault:
                 s = 'raised'
             out.append('%s v=%d %s' % (s, mset.last_applied(), ','.join(ctl.events)))
-            schema.append(('vakt_policies' in inspect(eng).get_table_names(), mset.last_applied()))
+            # after a request that was interrupted inside its DDL the schema is partial by construction
+            if not (inside and s == 'raised') and not (inside and schema and schema[-1] is None and 'fail' not in out[-1]
+                                                       and not ctl.events):
+                schema.append(('vakt_policies' in inspect(eng).get_table_names(), mset.last_applied()))
+            else:
+                schema.append(None)
         ses.remove()
         eng.dispose()
         return ' | '.join(out), schema
@@ -250,7 +284,10 @@ class SqlSetStream(Stream):
         o = RecordingStream().oracle(c, obs)
         if o:
             return o
-        for has, v in self._run(c)[1]:
+        for entry in self._run(c)[1]:
+            if entry is None:
+                continue
+            has, v = entry
             if has != (v >= 1):
                 return 'policy tables %s but recorded version is %d' % ('exist' if has else 'are absent', v)
         return None
@@ -339,7 +376,7 @@ ASSUME = ['each migration body is atomic and its down inverts its up (bodies of 
 
 def main(argv):
     return run_check('C18', [RecordingStream(), SqlSetStream(), MongoSetStream()], argv, trusted_base=TRUSTED, assumptions=ASSUME,
-                     translated=('migration', 'on_generated', 'pin_sqlmig', 'pin_mongo'))
+                     translated=('migration', 'on_generated', 'pin_sqlmig', 'pin_migrator', 'pin_mongo'))
 
 
 if __name__ == '__main__':
